@@ -1,6 +1,7 @@
 import CwPlus.Driver.Common
 import CwPlus.Driver.Cw20
 import CwPlus.Model.Cw3Flex
+import CwPlus.Model.MsgWire
 /-!
 Scenario `cw3flex`: op-line parser, observation renderer and property monitors (C03, C05, C06 — cw3-flex part —
 and C15) for the cw3-flex-multisig model in its world (cw4-group, cw20 deposit token, bank).
@@ -285,7 +286,7 @@ def stepOp (m : MState) (toks : List String) : MState × StepResult :=
             match tx ext FUEL w m.blk (.flex snd funds msg) with
             | .ok w' =>
               ({ m with w := some w' },
-               { ok := some true, out := [("msgs", renderOuts out)],
+               { ok := some true, out := [("msgs", renderOuts out), ("depraw", MsgWire.depRawOfFlex out)],
                  tag := if out.isEmpty then s!"{kind}.ok" else s!"{kind}.ok.dispatched" })
             | .error e => err m s!"{kind}.dispatch.{e}"
   | "query" :: kind :: rest =>
